@@ -306,6 +306,59 @@ func (c *Ctx) RunC03(tier string) {
 	}
 	rep.Bound += "; three-instruction skeletons (labels a,b,c; 2 EQUs from several definition sets incl. label-valued, constant-valued and chained): each slot in turn takes every instruction template (10 per dialect) x every pair from a 22-expression symbolic operand alphabet, entry point by nothing / ORG / END; M in {8000,7}; both dialects"
 
+	// P2b (thorough): two slots at a time over a reduced operand alphabet.
+	if thorough {
+		ops8 := []string{"0", "-1", "a", "c", "x", "b-a", "2*x", "CORESIZE-1"}
+		for _, dialect := range []g.SimulatorMode{g.ICWS94, g.ICWS88} {
+			cfg := cfgM(8000, dialect)
+			tl := templates
+			if dialect == g.ICWS88 {
+				tl = templates88
+			}
+			for _, eq := range equSets[:2] {
+				for _, sp := range [][2]int{{0, 1}, {0, 2}, {1, 2}} {
+					for _, t1 := range tl {
+						for _, t2 := range tl {
+							if !c.mine() || c.expired() {
+								continue
+							}
+							for _, a1 := range ops8 {
+								for _, b1 := range ops8 {
+									for _, a2 := range ops8 {
+										for _, b2 := range ops8 {
+											p := baseMeta(&ref.AProg{Equs: eq, Ins: skeleton(dialect)})
+											mk := func(slot int, t tmpl, ea, eb string) bool {
+												in := ref.AIns{Labels: p.Ins[slot].Labels, Op: t.op, Mod: t.mod, A: operand(t.am, ea)}
+												if t.bm != "-" {
+													in.B = operand(t.bm, eb)
+												} else if eb != ops8[0] {
+													return false
+												}
+												p.Ins[slot] = in
+												return true
+											}
+											if !mk(sp[0], t1, a1, b1) || !mk(sp[1], t2, a2, b2) {
+												continue
+											}
+											m, err := ref.Denote(p, cfg)
+											if err != nil {
+												rep.Count("c03:generator-skipped-ill-formed")
+												continue
+											}
+											src, _ := Render(p, nil)
+											c.checkSrc("C03", mkCase(p, m, cfg, src, "symbolic, two slots"))
+										}
+									}
+								}
+							}
+						}
+					}
+				}
+			}
+		}
+		rep.Bound += "; (thorough) every pair of slots takes every pair of templates x every quadruple from an 8-expression operand alphabet, M=8000, both dialects, 2 EQU sets"
+	}
+
 	// P3: renderings. Representative programs x every deviation set of size
 	// <= 2 (quick: <= 1, and <= 2 for the first programs).
 	reps := representativePrograms()
@@ -396,6 +449,36 @@ func representativePrograms() []repProg {
 			{Labels: []string{"u"}, Op: "djn", A: operand("", "t"), B: operand("#", "n")},
 			{Op: "jmz", A: operand("@", "u"), B: operand("", "t-1")},
 		},
+	})
+	// 6: instructions without a B operand, a label alone before an EQU-valued operand, upper-case constants
+	add(g.ICWS94, &ref.AProg{
+		Equs: []ref.AEqu{{Name: "far", Body: toks("CORESIZE/2")}, {Name: "near", Body: toks("q-p")}},
+		Ins: []ref.AIns{
+			{Labels: []string{"p"}, Op: "jmp", A: operand("@", "near")},
+			{Op: "spl", A: operand("", "far")},
+			{Labels: []string{"q"}, Op: "dat", A: operand("", "near*far")},
+			{Op: "nop", Mod: "f", A: operand("{", "p"), B: operand("}", "q")},
+		},
+		StartKind: ref.StartOrg, StartExpr: toks("q-1"),
+	})
+	// 7: one-instruction program with everything on it
+	add(g.ICWS94, &ref.AProg{
+		Equs: []ref.AEqu{{Name: "v", Body: toks("7")}},
+		Ins: []ref.AIns{
+			{Labels: []string{"only", "one"}, Op: "div", Mod: "x", A: operand("<", "v-only"), B: operand(">", "one+v")},
+		},
+		StartKind: ref.StartEnd, StartExpr: toks("only"),
+	})
+	// 8: '88 program with lone operands and an EQU naming a label difference
+	add(g.ICWS88, &ref.AProg{
+		Equs: []ref.AEqu{{Name: "len", Body: toks("last-first")}},
+		Ins: []ref.AIns{
+			{Labels: []string{"first"}, Op: "spl", A: operand("", "last")},
+			{Op: "sub", A: operand("#", "len"), B: operand("@", "first")},
+			{Op: "jmn", A: operand("", "first"), B: operand("<", "last")},
+			{Labels: []string{"last"}, Op: "dat", A: operand("<", "len"), B: operand("#", "len+1")},
+		},
+		StartKind: ref.StartOrg, StartExpr: toks("first+1"),
 	})
 	return out
 }
